@@ -541,6 +541,9 @@ func (cluster *Cluster) handleConnTimeout(node *redisNode, cmd string, args []in
 		}
 	}
 	cluster.rwLock.RUnlock()
+	if randomNode == nil {
+		return nil, fmt.Errorf("no node to retry on, previous node[%v]", node.address)
+	}
 
 	reply, err := randomNode.do(cmd, args...)
 	if err != nil {
